@@ -77,10 +77,10 @@ fn any_widths() -> (Option<usize>, Option<usize>) {
     (fk, fv)
 }
 
-// @harness props=C12 tier=quick timeout=1800 mem=16 stubbing=1 flavor=nodebug replay=scenario:page_alter
+// @harness props=C12 tier=quick timeout=1800 mem=24 stubbing=1 flavor=nodebug replay=scenario:page_alter
 // @desc RawBtree::verify_checksum on a tree whose root is a single page with ARBITRARY contents: it returns Ok(true) only if the page is a leaf whose checksummed range can be computed and whose checksum equals the one stored in the root header; a leaf whose count/offsets are so damaged that no checksum can be computed, a page of unknown type, or a mismatching checksum all yield Ok(false); nothing panics
 // @functions RawBtree::{new,verify_checksum,verify_checksum_helper}, leaf_checksum, branch_checksum, LeafAccessor::*, BranchAccessor::*
-// @bound one 64-byte root page with arbitrary bytes after a type byte in {LEAF, 0x00, 0xFF}; fixed/variable key and value widths arbitrary among {None, Some}; expected checksum arbitrary; profile without debug assertions
+// @bound one 64-byte LEAF root page with arbitrary bytes after the type byte; variable-width keys and values; expected checksum arbitrary; profile without debug assertions
 // @stubs PageResolver::get_page -> page from the harness table; xxh3_checksum -> per-page symbolic constant; alloc::fmt::format -> empty; crate::panicking -> false
 #[kani::proof]
 #[kani::unwind(2)]
@@ -89,18 +89,31 @@ fn any_widths() -> (Option<usize>, Option<usize>) {
 #[kani::stub(alloc::fmt::format, no_format)]
 #[kani::stub(crate::panicking, not_panicking)]
 fn c12_verify_single_page_tree() {
-    // The type byte must be concrete on each path (a symbolic one makes CBMC unroll the BRANCH
-    // arm's recursion over a symbolic child count): dispatch, with the whole body in each arm.
+    // variable-width keys and values: both offset tables are read from the (arbitrary) page
+    single_page_case(LEAF, None, None);
+}
+
+// @harness props=C12 tier=quick timeout=1800 mem=24 stubbing=1 flavor=nodebug replay=scenario:page_alter
+// @desc as c12_verify_single_page_tree for fixed-width keys (2) and values (1), and for root pages whose type byte is not a page type (0x00, 0xFF): never verified
+// @functions RawBtree::{verify_checksum,verify_checksum_helper}, leaf_checksum
+// @bound one 64-byte root page, arbitrary bytes after the (concrete) type byte
+// @stubs as c12_verify_single_page_tree
+#[kani::proof]
+#[kani::unwind(2)]
+#[kani::stub(PageResolver::get_page, stub_get_page)]
+#[kani::stub(crate::tree_store::page_store::xxh3_checksum, stub_checksum)]
+#[kani::stub(alloc::fmt::format, no_format)]
+#[kani::stub(crate::panicking, not_panicking)]
+fn c12_verify_single_page_tree_fixed() {
     let kind: u8 = kani::any();
     match kind {
-        0 => single_page_case(LEAF),
-        1 => single_page_case(0),
-        _ => single_page_case(0xFF),
+        0 => single_page_case(LEAF, Some(2), Some(1)),
+        1 => single_page_case(0, None, None),
+        _ => single_page_case(0xFF, None, None),
     }
 }
 
-fn single_page_case(type_byte: u8) {
-    let (fk, fv) = any_widths();
+fn single_page_case(type_byte: u8, fk: Option<usize>, fv: Option<usize>) {
     let mut p: [u8; PG] = kani::any();
     p[0] = type_byte;
     p[1] = 0;
